@@ -46,8 +46,10 @@ REPLAY_DIR = (os.path.join(os.environ["WGVERIF_EVIDENCE_DIR"], "replay")
               if os.environ.get("WGVERIF_EVIDENCE_DIR") else os.path.join(env.VERIF_ROOT, "out", "replay"))
 
 
-class CaseTimeout(Exception):
-    pass
+class CaseTimeout(BaseException):
+    """Watchdog.  Derives from BaseException so that `except Exception` clauses in the
+    code under test (or in a check) cannot swallow it; the timer re-fires every few
+    seconds in case a bare `except:` does."""
 
 
 def _alarm(signum, frame):
@@ -98,7 +100,7 @@ def _worker_init(modname):
 def _run_one(mod, case, timeout):
     t0 = time.time()
     signal.signal(signal.SIGALRM, _alarm)
-    signal.alarm(int(timeout))
+    signal.setitimer(signal.ITIMER_REAL, float(timeout), 5.0)
     try:
         res = mod.run_case(case)
     except CaseTimeout:
@@ -111,7 +113,7 @@ def _run_one(mod, case, timeout):
                "inconclusive": "harness exception: " + repr(exc)[:300],
                "trace": traceback.format_exc()[-1500:], "mon": {}}
     finally:
-        signal.alarm(0)
+        signal.setitimer(signal.ITIMER_REAL, 0.0)
     res.setdefault("viol", [])
     res.setdefault("mon", {})
     res.setdefault("obs", {})
